@@ -30,7 +30,7 @@ def norm(s):
 
 def run(report, tier, seed):
     quick = tier == "quick"
-    report.rule = ("a case = one (package, protocol, step, back end in {python binary, python ndjson, matlab binary}, writer|reader) whose "
+    report.rule = ("a case = one (package, protocol, step, back end in {python binary, python ndjson, matlab binary, c++ binary}, writer|reader) whose "
                    "printed serializer expression is compared with Plan.emit of the resolved step type, plus executed C++/Python "
                    "round trips of Lean-encoded streams; distinct = distinct (back end, expression); non-trivial = expression with "
                    "at least one constructor around a primitive")
@@ -51,9 +51,9 @@ def run(report, tier, seed):
             g.avoid_py_array_regions = False
             g.simple_array_elements = False
             g.avoid_alias_inline_union = False
-            labs.append(codeclab.Lab(sc, ybin, i, g, ndjson=True, want_cpp=False, want_matlab=True))
+            labs.append(codeclab.Lab(sc, ybin, i, g, ndjson=True, want_cpp=True, compile_cpp=False, want_matlab=True))
         labs.append(codeclab.Lab(sc, ybin, 1000, modelgen.Gen(seed * 100129 + 1000), pkg=modelgen.directed_package(),
-                                 ndjson=True, want_cpp=False, want_matlab=True))
+                                 ndjson=True, want_cpp=True, compile_cpp=False, want_matlab=True))
         for lab in labs:
             lab.prepare()
             if not lab.ok:
@@ -99,6 +99,11 @@ def expressions(report, lab, lean, seed):
     backends = [("py", "python binary", planparse.PyPackage(lab.out_py, "binary", ns)),
                 ("pyndjson", "python ndjson", planparse.PyPackage(lab.out_py, "ndjson", ns)),
                 ("matlab", "matlab binary", planparse.MatPackage(lab.out_matlab))]
+    try:
+        backends.append(("cpp", "c++ binary", planparse.CppPackage(lab.out_cpp)))
+    except planparse.ParseError as e:
+        report.violation("cpp:unparsed-generated-code", {"seed": seed, "model_index": lab.idx, "theorem_or_correspondence": "serializer expressions of generated code vs Plan.emit",
+                                                         "error": str(e), "files": c01._files(lab)}, "no-failing-input-found")
     for pname, pj in lab.protos.items():
         for bk, label, pkg in backends:
             replay = {"seed": seed, "model_index": lab.idx, "protocol": pname, "backend": label, "files": c01._files(lab)}
@@ -112,6 +117,11 @@ def expressions(report, lab, lean, seed):
                         raise planparse.ParseError("no MATLAB namespace directory for " + lab.pkg.namespace)
                     cls = _find_matlab_proto(lab.out_matlab, mat_ns, pname)
                     got = pkg.steps(mat_ns, cls)
+                elif bk == "cpp":
+                    cands = [(n_, p_) for (n_, p_, r_) in pkg.methods if r_ == "Writer" and norm(p_) == norm(pname) and norm(n_) == norm(lab.pkg.namespace)]
+                    if len(cands) != 1:
+                        raise planparse.ParseError(f"step methods of protocol {pname}: {len(cands)} candidate classes")
+                    got = pkg.steps(*cands[0])
                 else:
                     cls = _find_py_proto(pkg, ns, pname, "Binary" if bk == "py" else "NDJson")
                     got = pkg.steps(ns, cls)
@@ -155,6 +165,12 @@ def expressions(report, lab, lean, seed):
                     if not ok:
                         report.violation("py:record-field-order", dict(replay, cls=cls, method=kind, serializers=names, used=seen),
                                          "a record serializer passes fields in an order other than its serializer list")
+            if bk == "cpp":
+                for fn_, used, declared in pkg.field_orders:
+                    report.count("record-field-order.cpp")
+                    if used != declared:
+                        report.violation("cpp:record-field-order", dict(replay, function=fn_, serialized=used, declared=declared),
+                                         "a C++ record serializer passes the fields in an order other than the struct's")
             if bk == "matlab":
                 for ns_, cls, wn, rn, nf in pkg.field_orders:
                     report.count("record-field-order.matlab")
